@@ -134,7 +134,71 @@ def item(arg):
     return acc
 
 
+def phases_item(arg):
+    """Two error specifications one after the other in one client session (a player that retries segment 5 until it is
+    served and then moves on to segment 7): each is produced the configured number of times. Explicit enumeration of
+    the request sequences: F+1 hits of the first, F+1 hits of the second, with up to two other requests (a miss of the
+    same session, a hit by another session) at every position."""
+    variant, typ, failures, tier = arg
+    import itertools
+    w = W.World.shared(extras=True)
+    acc = core.Acc()
+    code = CODES[True]
+    name, ext, opt = {'video': ('bbb_v7', 'm4v', 'verr'), 'audio': ('bbb_a1', 'm4a', 'aerr')}[typ]
+    ts = {'video': 960, 'audio': 176128}[typ]
+
+    def url(seg, spec):
+        q = f'?{opt}={code}={spec}&failures={failures}'
+        if variant == 'number':
+            return f'/dash/vod/bbb/{name}/{seg}.{ext}{q}'
+        return f'/dash/vod/bbb/{name}/time/{(seg - 1) * ts}.{ext}{q}'
+    core_seq = [('hit', 'a', 5, 5)] * (failures + 1) + [('hit', 'a', 7, 7)] * (failures + 1)
+    extras = [('miss', 'a', 6, 5), ('hit', 'b', 5, 5)]
+    n = len(core_seq)
+    plans = [()]
+    for k in (1, 2):
+        for pos in itertools.combinations_with_replacement(range(n + 1), k):
+            for ex in itertools.product(range(len(extras)), repeat=k):
+                plans.append(tuple(zip(pos, ex)))
+    if tier == 'quick':
+        plans = [p for p in plans if len(p) <= 1] + [p for p in plans if len(p) == 2][::5]
+    for plan_ in plans:
+        seq = list(core_seq)
+        for pos, ex in sorted(plan_, reverse=True):
+            seq.insert(pos, extras[ex])
+        clients = {'a': w.app.test_client(), 'b': w.app.test_client()}
+        W.set_now(NOW)
+        counts = {}
+        hist = []
+        for kind, sess, seg, spec in seq:
+            r = w.get(url(seg, spec), client=clients[sess])
+            acc.count('transitions')
+            acc.count('evaluations')
+            got = 'code' if (r.status == code and r.body.startswith(b'Synthetic')) else ('ok' if r.status == 200 else f'status-{r.status}')
+            if kind == 'miss':
+                want = 'ok'
+            else:
+                c = counts.get((sess, spec), 0)
+                want = 'code' if c < failures else 'ok'
+                counts[(sess, spec)] = c + 1
+            hist.append((kind, sess, seg, got))
+            if got != want:
+                cls = 'error-produced-but-not-allowed' if got == 'code' else ('served-but-error-required' if got == 'ok' else got)
+                which = 'first' if spec == 5 else 'second'
+                acc.violation(f'C16|inject|{variant}|phases|{which}-specification|{cls}',
+                              f'{variant}/{typ}/failures={failures}: after {hist[:-1]}, {kind} by session {sess} on segment '
+                              f'{seg} ({url(seg, spec)}): got {got}, the specification prescribes {want}',
+                              {'kind': 'inject-phases', 'arg': [variant, typ, failures, 'thorough']})
+                break
+        acc.state(('phases', variant, typ, failures, plan_))
+        acc.nontriv(('phases', variant, typ, failures, plan_))
+        acc.count('traces')
+    return acc
+
+
 def dispatch(kind, arg):
+    if kind == 'inject-phases':
+        return phases_item(arg)
     return item(arg)
 
 
@@ -153,6 +217,10 @@ def plan(ctx):
                 items.append(('inject', ('paths', variant, is5xx, failures, tier, lo, lo + 150, plen)))
         for lo in range(0, len(g.last), 120):
             items.append(('inject', ('edges', 'number', is5xx, failures, tier, lo, lo + 120, plen)))
+    for variant in ('number', 'time'):
+        for typ in ('video', 'audio'):
+            for failures in ((1, 2) if tier == 'quick' else (1, 2, 3)):
+                items.append(('inject-phases', (variant, typ, failures, tier)))
     extra = {'inject_tlc': {'model': 'models/ErrInject.tla', 'runs': summary, 'invariant': 'NeverMoreThanConfigured'},
              'inject_levels': f'ErrInject model: {len(CONFIGS)} TLC runs; all paths <= {plen} replayed for number, time and '
                               f'manifest variants, all edges for the number variant'}
@@ -160,6 +228,9 @@ def plan(ctx):
 
 
 def replay(record):
+    if record.get('kind') == 'inject-phases':
+        a = phases_item(tuple(record['arg']))
+        return [(s_, v[0]['what']) for s_, v in a.viol.items()]
     g = None
     im = Impl(record['variant'], record['is5xx'], record['failures'])
     im.reset()
